@@ -88,6 +88,7 @@ class Nest:
         self.alias = {}      # body-local name -> set of non-local arrays it may alias
         self.accs = []       # (arr, store, [ixc text], vclass text, lineno)
         self.read_only_tables = None
+        self.top_alias = {}
 
     # -- aliasing of body-local names
     def alias_of(self, e):
@@ -273,6 +274,13 @@ class Nest:
 
     def result(self):
         self.visit(self.loop.body)
+        # names bound outside the loop to a view of another array: an access through the name is also an access
+        # (at an unknown position) of the array it may alias
+        extra = []
+        for arr, st, idx, vc, ln in self.accs:
+            for base in sorted(self.top_alias.get(arr, ())):
+                extra.append((base, st, ["IOther"], "VOther" if st else "VLoad", ln))
+        self.accs += extra
         stored = {a for a, s, _, _, _ in self.accs if s}
         accs = [x for x in self.accs if x[0] in stored]
         carried = sorted((self.body_bound & self.outer_bound) - {self.var})
@@ -317,6 +325,47 @@ def function_nests(path, rel, cls, fn, switch):
             scan_top(sub_stmts)
 
     scan_top(fn.body)
+    # aliases created outside the prange loops:  x = y, x = y[...], x = y.T, x = y.reshape(..)
+    top_alias = {}
+
+    def alias_top(e):
+        if isinstance(e, ast.Name):
+            return {e.id} | top_alias.get(e.id, set())
+        if isinstance(e, ast.Subscript):
+            return alias_top(e.value)
+        if isinstance(e, ast.Attribute):
+            return alias_top(e.value) if e.attr == "T" else set()
+        if isinstance(e, ast.Call) and isinstance(e.func, ast.Attribute) and e.func.attr in VIEW_METHODS:
+            return alias_top(e.func.value)
+        if isinstance(e, ast.IfExp):
+            return alias_top(e.body) | alias_top(e.orelse)
+        return set()
+
+    def scan_alias(stmts):
+        for st in stmts:
+            if is_prange_loop(st):
+                continue
+            if isinstance(st, ast.Assign):
+                for t in st.targets:
+                    if isinstance(t, ast.Name):
+                        a = alias_top(st.value)
+                        if a:
+                            top_alias[t.id] = top_alias.get(t.id, set()) | a
+                    elif isinstance(t, (ast.Tuple, ast.List)) and isinstance(st.value, (ast.Tuple, ast.List)) \
+                            and len(t.elts) == len(st.value.elts):
+                        for tt, vv in zip(t.elts, st.value.elts):
+                            if isinstance(tt, ast.Name) and alias_top(vv):
+                                top_alias[tt.id] = top_alias.get(tt.id, set()) | alias_top(vv)
+            for fld in ("body", "orelse"):
+                sub = getattr(st, fld, None)
+                if isinstance(sub, list) and sub and isinstance(sub[0], ast.stmt):
+                    scan_alias(sub)
+
+    scan_alias(fn.body)
+    # symmetric closure: if x aliases y, an access of y is also an access of x
+    for x, ys in list(top_alias.items()):
+        for y in ys:
+            top_alias.setdefault(y, set()).add(x)
     nests = []
 
     def find(stmts, enclosing_body_bound):
@@ -331,7 +380,8 @@ def function_nests(path, rel, cls, fn, switch):
                 finally:
                     st.body = body
                 n = Nest(where, fn_name, st, fn, switch, outer)
-                n.read_only_tables = read_only_tables
+                n.read_only_tables = read_only_tables - set(top_alias)
+                n.top_alias = top_alias
                 accs, carried = n.result()
                 nests.append((st.lineno, n.var, accs, carried))
                 find(st.body, None)
